@@ -94,3 +94,8 @@ claim("C11", "loop-free segment analysis of bintree.c's IR: pairing rules (threa
       "Decides the pairing and discipline clauses of the four mechanisms the property anchors: Morris threads are created only over NULL links and removed wherever found, with the node returned at the documented moment; the post-order tag is exactly bit 0 and is stripped with exactly ~1 everywhere and restored before the node is returned; bintree_free never touches a node after deallocating it, patches the parent's link before advancing the iterator, and the iterator records the parent and forgets the root; free_left/right clear the link after freeing. bintree.c is not built by the test suite, so any edit passes it.",
       "Visiting order and restoration of every link for every tree shape, and the list iterators on list spines, are heap-shape properties and are NOT decided. Trusted: clang 14 front end, ir2json, segment enumerator.",
       "DESIGN.md section 2 C11")
+claim("C08", "witness translation validation: generated protothread bodies compiled against /repo's macros; control automaton extracted from the IR (finite outcome sets for uninterpreted calls) and compared with the specification automaton by a synchronous product walk",
+      "translation_validation",
+      "For every generated body (every blocking macro in every syntactic context the quantifier names, all bodies up to 2 statements (3 in thorough), seeded random bodies to nesting depth 2/3, with PT_BEGIN and PT_BEGIN_FIBRE) the compiled function and the property's semantics are bisimilar from the initial state: same events, return codes and resume points for every outcome of every condition and child result, over all sequences of invocations until exit. The macros are context-free text, so their control effect in any body of the statement language is determined by these contexts.",
+      "Bodies outside the property's own scope (two blocking macros per line, blocking inside a user switch, PT_CHILD_OK after the next blocking point) are not generated. All C programs are not enumerated: the claim is for the generator's statement language up to the stated sizes. Trusted: clang 14 front end, ir2json, the spec machine in C08.py (60 lines, the property's sentences transcribed).",
+      "DESIGN.md section 2 C08")
